@@ -196,4 +196,11 @@ def check(ctx):
     from .c11 import check_split
 
     check_split(ctx, "C07-h", "C07-h", names=["b_o_Standing"])
+
+    # ---- C07-i the gas PVT table hands these quantities on column by column: each column is its own correlation at the row's
+    # pressure (density, viscosity and compressibility of the *same* gas; a pair of exchanged columns leaves every single
+    # formula intact) - the builder rule of C19-b
+    from .c19 import check_builder
+
+    check_builder(ctx, "C07-i")
     ctx.floor("C07", len(ctx.obligs), 11, "consistency obligations")
